@@ -26,7 +26,7 @@ func init() {
 				Rule: "case = (Left, Right, n). Exhaustive: every pair of line sequences over alphabet 2 x length <= 8, alphabet 3 x length <= 5 and alphabet 4 x length <= 4 (alphabet 2 x length <= 9, alphabet 3 x length <= 6 in thorough), each with every context size n in 0..5 (so n exceeds every gap for short inputs); random repetitive inputs of up to 60 lines with n in 0..8; context sizes 1000, 2^31, 2^40, MaxInt-1 and MaxInt; inputs that are windows of one shared backing array; very large inputs (4100..11700 lines a side, 16400 and 23200 in thorough: length products past 2^24..2^29) whose seam repeats (one of two adjacent identical blocks removed or added), with the middle replaced, with nothing in common at the ends, and with scattered edits; the F4 witnesses as regression cases. " +
 					"In about half of the cases the diff is rendered (Diff.Format with all three formatters) between the stages, before the stage is checked. At each of the three stages every chunk's edits are interpreted against Left[LStart,LEnd) and Right[RStart,REnd); leading/trailing context <= n; after New and after Unify chunks ascending and disjoint (after Unify also not adjacent) and replacing each left range by the chunk's output yields Right; Edits deep-equals its value after New and is itself a correct script; Left/Right are not modified. " +
 					"distinct = enumerated (Left, Right, n) triples, random ones by hash; non-trivial = New produced >= 2 chunks and n >= 1 (context of neighbouring chunks can interact)",
-				Required:     []string{"triples", "multi_chunk_triples", "merged_by_unify", "n_exceeds_gap", "f4_witnesses", "aliased_input_triples", "huge_n_triples", "very_large_input_triples", "formats_between_stages", "unify_on_rebuilt_chunks"},
+				Required:     []string{"triples", "multi_chunk_triples", "merged_by_unify", "n_exceeds_gap", "f4_witnesses", "aliased_input_triples", "huge_n_triples", "very_large_input_triples", "formats_between_stages", "unify_on_rebuilt_chunks", "long_sparse_input_triples"},
 				Exhaustive:   true,
 				Assumptions:  []string{"chunk interpreter written from the Chunk field documentation (1-based half-open ranges)"},
 				CoverPkgs:    []string{"github.com/creachadair/mds/mdiff"},
@@ -376,6 +376,39 @@ func runC13(c *fw.Ctx) {
 			c.Add("triples", 1)
 			c.Max("max:length_product", int64(len(left))*int64(len(right)))
 		}
+	}
+	// inputs of 200..700 lines with a few scattered changes and long unchanged
+	// runs between them, with every context size from 0 to 130 and a few beyond
+	// (context runs of dozens of lines meet and merge)
+	for k := 0; k < c.Pick(140, 1400); k++ {
+		if !c.Begin(idx + 3100000 + k) {
+			continue
+		}
+		r := c.Rng()
+		nl := 200 + r.IntN(500)
+		left := make([]string, nl)
+		for i := range left {
+			left[i] = fmt.Sprint("line ", i)
+		}
+		right := append([]string(nil), left...)
+		for ch := 2 + r.IntN(4); ch > 0; ch-- {
+			p := r.IntN(len(right))
+			switch r.IntN(3) {
+			case 0:
+				right[p] = "changed"
+			case 1:
+				right = append(right[:p:p], right[min(len(right), p+1+r.IntN(3)):]...)
+			default:
+				right = append(right[:p:p], append([]string{"inserted", "inserted too"}, right[p:]...)...)
+			}
+		}
+		n := (k*7 + c.Block) % 131
+		if k%10 == 9 {
+			n = []int{150, 199, 200, 201, 255, 256, 300}[r.IntN(7)]
+		}
+		c13check(c, left, right, n)
+		c.Add("triples", 1)
+		c.Add("long_sparse_input_triples", 1)
 	}
 	nr := c.Pick(4000, 400000)
 	for k := 0; k < nr; k++ {
